@@ -155,6 +155,24 @@ theorem first_match_order :
       && before r.classes "Where" "WhereStmt" || r.cls == "Forall" || r.cls == "Where") = true := by
   decide +kernel
 
+/-- which blocks can read a typed FUNCTION header `<type-spec> function f(..)` (`needsOk`): the type
+    declaration class must be offered before `Function`.  The intrinsic types are, wherever `Function` is
+    offered; `TypeStmt` (`type(t)`) and `Class` (`class(t)`) are NOT offered by INTERFACE
+    (`intrinsic_type_spec + interface_specification`): `type(t) function f(x)` as an interface body is
+    rejected by fparser1 (defect, mirrored). -/
+theorem typed_header_classes :
+    (tables.rows.all fun r => !r.classes.contains (classId tables "Function")
+        || (["SubprogramPrefix", "Integer", "Real", "DoublePrecision", "Complex", "DoubleComplex", "Character",
+              "Logical", "Byte"].all fun n => decide (r.classes.idxOf (classId tables n)
+                < r.classes.idxOf (classId tables "Function")))) = true
+    ∧ ((tables.rows.filter fun r => r.classes.contains (classId tables "Function")
+          && !(r.classes.contains (classId tables "TypeStmt") && r.classes.contains (classId tables "Class"))).map (·.cls))
+        = ["Interface"]
+    ∧ (tables.rows.all fun r => r.cls == "Interface" || !r.classes.contains (classId tables "Function")
+        || (decide (r.classes.idxOf (classId tables "TypeStmt") < r.classes.idxOf (classId tables "Function"))
+            && decide (r.classes.idxOf (classId tables "Class") < r.classes.idxOf (classId tables "Function")))) = true := by
+  decide +kernel
+
 /-- translator-checked on the live regexes: no class of a block's list matches the END line the block
     prints (`reEnd` gives such a line no statement class) -/
 theorem end_line_quiet : tables.endLineQuiet = true := by decide
